@@ -10,10 +10,13 @@ echo "== demo on changed worktree"; PYTHONPATH=$WT /venv/bin/python seed${K}_dem
 git checkout -q -- .
 cd /repo && git apply $WT/seed${K}.diff || { echo "patch does not apply to /repo"; exit 2; }
 cd /verif
+SAVE=$(mktemp -d /var/tmp/verif-evidence-save.XXXXXX)
 for id in "$@"; do
+  cp evidence/$id.json $SAVE/ 2>/dev/null     # evidence must describe runs on the UNCHANGED tree: put it back afterwards
   out=$(./check $id 2>&1); rc=$?
   echo "== check $id rc=$rc: $(echo "$out" | grep -E '^VIOLATION' | head -2 | tr '\n' ' ') $(echo "$out" | tail -1)"
   echo "$out" | grep "violation classes" | cut -c1-400
 done
 git -C /repo checkout -q -- .
+cp $SAVE/*.json evidence/ 2>/dev/null; rm -rf $SAVE
 git -C /repo status --short | head -3
